@@ -36,11 +36,15 @@ Fixpoint find_pos (fs : list decl) (n : name) (k : kind) (i : N) : option (N * d
   | d :: r => if is_key n k d then Some (i, d) else find_pos r n k (N.succ i)
   end.
 
-Definition spec_lookup (ds : list decl) (n : name) (k : kind) : option (N * decl) :=
+(* fs = firsts ds (computed once by the differential driver) *)
+Definition spec_lookup_in (fs : list decl) (n : name) (k : kind) : option (N * decl) :=
   match k with
   | KNone => None                 (* "anything": not a kind a command can be invoked with *)
-  | _ => find_pos (firsts ds) n k 1%N
+  | _ => find_pos fs n k 1%N
   end.
+
+Definition spec_lookup (ds : list decl) (n : name) (k : kind) : option (N * decl) :=
+  spec_lookup_in (firsts ds) n k.
 
 Definition spec_number (ds : list decl) (n : name) (k : kind) : N :=
   match find_pos (firsts ds) n k 1%N with Some (i, _) => i | None => 0%N end.
@@ -84,9 +88,9 @@ Fixpoint nearest (cs : list cls) (fuel ci : nat) (ev : N) : slot :=
 Definition spec_slot (cs : list cls) (ci : nat) (ev : N) : slot :=
   nearest cs (length cs) ci ev.
 
-Definition spec_invoke (m : fmode) (filtered : list nat) (ds : list decl) (cs : list cls)
+Definition spec_invoke_in (m : fmode) (filtered : list nat) (fs : list decl) (cs : list cls)
            (ci : nat) (n : name) (k : kind) : outcome :=
-  match spec_lookup ds n k with
+  match spec_lookup_in fs n k with
   | None => NotFound
   | Some (num, d) =>
       if ns_allowed m filtered (d_ns d)
@@ -97,11 +101,15 @@ Definition spec_invoke (m : fmode) (filtered : list nat) (ds : list decl) (cs : 
       else NotFound
   end.
 
+Definition spec_invoke (m : fmode) (filtered : list nat) (ds : list decl) (cs : list cls)
+           (ci : nat) (n : name) (k : kind) : outcome :=
+  spec_invoke_in m filtered (firsts ds) cs ci n k.
+
 (* the value-returning entry point (Listener::ProcessEventReturn) does not reject: an
    unknown or unsupported command silently yields nothing *)
-Definition spec_invoke_return (m : fmode) (filtered : list nat) (ds : list decl) (cs : list cls)
+Definition spec_invoke_return_in (m : fmode) (filtered : list nat) (fs : list decl) (cs : list cls)
            (ci : nat) (n : name) (k : kind) : outcome :=
-  match spec_lookup ds n k with
+  match spec_lookup_in fs n k with
   | None => Silent
   | Some (num, d) =>
       if ns_allowed m filtered (d_ns d)
@@ -111,3 +119,7 @@ Definition spec_invoke_return (m : fmode) (filtered : list nat) (ds : list decl)
            end
       else NotFound
   end.
+
+Definition spec_invoke_return (m : fmode) (filtered : list nat) (ds : list decl) (cs : list cls)
+           (ci : nat) (n : name) (k : kind) : outcome :=
+  spec_invoke_return_in m filtered (firsts ds) cs ci n k.
